@@ -54,7 +54,7 @@ def instances(tier, seed):
                     out.append(Instance(crate="hk_core", family=f"glwe.{oname}", name=f"c02_{oname}_r{rr}{ra}_s{sr}{sa}_k{k}",
                                         call=f"crate::c02::shift::<{B}, {rb}, {op}>({rr}, {ra}, {sr}, {sa}, {k})", unwind=30,
                                         params={"op": oname, "ranks(res,a)": [rr, ra], "sizes(res,a)": [sr, sa], "k": k, "base2k": B, "res_base2k": rb, "n": 2},
-                                        symbolic=["all ciphertext limbs |x|<2^60", "prior result content", "scratch contents (exact size)"],
+                                        symbolic=["all ciphertext limbs |x|<2^60", "prior result content", "scratch contents (exact size)"], stubs=[("poulpy_cpu_ref::hal_defaults::scratch::take_slice_aligned", "crate::stubs::take_slice_aligned_stub")],
                                         functions=[f"{O}::glwe_{oname}"], timeout=1800, mem_gb=28, core=core))
     return out
 
@@ -63,6 +63,6 @@ META = {
     "bounds": "ring degree 2, ranks 0..2 in the admitted combinations, limb counts 1..3 (result shorter/equal/longer), base2k 17 (12 as cross-radix target), rotation amounts {1,-1,2,3,5}, shift amounts {0,1,b,b+1,2b+1}",
     "outside": "GGSW forms (operations/ggsw.rs), N > 2, random straight-line programs (each operation is decided from an arbitrary symbolic pre-state, which is the inductive step)",
     "assumptions": ["|limbs| < 2^60 (the reference add/sub use checked +/-)", "the phase map is linear in the columns, so the phase-level statement for every secret is equivalent to the column-wise statement decided (reduction on paper, DESIGN C02-A2)"],
-    "stubs": [],
+    "stubs": ["take_slice_aligned (private, poulpy-cpu-ref/src/hal_defaults/scratch.rs) replaced, in the harnesses that run whole operations, by a copy that derives the 64-byte padding from the window offset inside the 64-byte-aligned harness arena instead of from the pointer integer (same function on these arenas; keeps scratch offsets constant for the engine); the real function is decided by the scratch.take_slice* harnesses"],
 }
 THOROUGH_SAMPLE = 6
